@@ -2,6 +2,7 @@
 """prints the markdown table of /verif/seeded/*/meta.json (which check caught which seeded change)"""
 import glob, json, os
 rows = []
+NOTES = json.load(open("/verif/seeded/NOTES.json")) if os.path.exists("/verif/seeded/NOTES.json") else {}
 for d in sorted(glob.glob("/verif/seeded/*/")):
     m = json.load(open(d + "meta.json"))
     name = os.path.basename(d.rstrip("/"))
@@ -13,7 +14,7 @@ for d in sorted(glob.glob("/verif/seeded/*/")):
             if r["rc"] == 1 and r["lines"]:
                 first = r["lines"][0].split("replay=")[-1][:60]
                 break
-    rows.append(f"| {name} | {m.get('summary', '')[:150].replace('|', '/')} | {m.get('needs', '')[:140].replace('|', '/')} | {caught} | {m.get('note', '')} |")
+    rows.append(f"| {name} | {m.get('summary', '')[:150].replace('|', '/')} | {m.get('needs', '')[:140].replace('|', '/')} | {caught} | {NOTES.get(name, m.get('note', ''))} |")
 print("| seeded change | what it does | what it needs to manifest | caught by (quick tier) | note |")
 print("|---|---|---|---|---|")
 print("\n".join(rows))
